@@ -363,6 +363,27 @@ func genAdvEvents(r *vfh.Rand, horizon time.Duration, validOnly bool) []advEvent
 		}
 		evs = append(evs, e)
 	}
+	// a crowd: ten or more valid solicitations inside one MIN_DELAY_BETWEEN_RAS window (a switch
+	// or an access point came back up), then one from :: a moment later — after whatever the
+	// crowd was answered with has already been transmitted; and a second crowd soon after the first
+	if r.Chance(1, 5) {
+		t0 := time.Duration(r.Range(1, int64(horizon))) | 1
+		for rep := 0; rep < 1+r.Intn(2); rep++ {
+			k := 9 + r.Intn(9)
+			t := t0
+			for j := 0; j < k; j++ {
+				t += time.Duration(r.Range(2, int64(40*time.Millisecond)))
+				evs = append(evs, advEvent{t: t | 1, hop: 255, host: 1 + r.Intn(len(vfHosts)-1), slla: r.Bool()})
+			}
+			t += time.Duration(r.Range(int64(600*time.Millisecond), int64(1500*time.Millisecond)))
+			evs = append(evs, advEvent{t: t | 1, hop: 255, host: 0})
+			if r.Bool() {
+				t += time.Duration(r.Range(2, int64(500*time.Millisecond)))
+				evs = append(evs, advEvent{t: t | 1, hop: 255, host: r.Intn(len(vfHosts))})
+			}
+			t0 = t + time.Duration(r.Range(int64(100*time.Millisecond), int64(4*time.Second)))
+		}
+	}
 	sort.Slice(evs, func(i, j int) bool { return evs[i].t < evs[j].t })
 	// strictly increasing odd instants: arrivals never coincide with each other or with the
 	// (whole-second) timers of the multicast loop
